@@ -37,6 +37,110 @@ def first_parser_call(fn, b, limit=12):
     return None
 
 
+def check_tokens_only(ctx, rep, rule):
+    """no branch of the parser is decided by anything the tokenizer offers besides the tokens of next()"""
+    F = ctx.facts()
+    from rules.shared import LocalFlow
+    n_obs = 0
+    for f in F.all_fns:
+        if f.crate != 'lib' or not f.path.startswith('parser::') or f.path.startswith('parser::tests'):
+            continue
+        obs = {}      # local -> what was observed
+        for b, si, st in f.stmts():
+            if st['k'] != 'assign':
+                continue
+            def fields_of(x, acc):
+                if isinstance(x, dict):
+                    if 'local' in x and 'proj' in x:
+                        for e in x['proj']:
+                            if isinstance(e, dict) and e.get('of', '').startswith('lexer::Tokenizer'):
+                                acc.append(e['name'])
+                    for v_ in x.values():
+                        fields_of(v_, acc)
+                elif isinstance(x, list):
+                    for v_ in x:
+                        fields_of(v_, acc)
+            acc = []
+            fields_of(st['rv'], acc)
+            if acc:
+                obs[st['place']['local']] = 'field %s of the tokenizer at %s' % (acc[0], span_loc(st['span']))
+        for b, t in f.calls():
+            nme = callee_name(t)
+            if nme.startswith('lexer::Tokenizer') and not nme.endswith('::new'):
+                obs[t['dest']['local']] = '%s() at %s' % (nme.split('::')[-1], span_loc(t['span']))
+            if nme.startswith('<lexer::Tokenizer') and not nme.endswith('Iterator>::next'):
+                obs[t['dest']['local']] = '%s() at %s' % (nme.split('::')[-1], span_loc(t['span']))
+        if not obs:
+            continue
+        LF = LocalFlow(f)
+        for b in range(len(f.blocks)):
+            t = f.term(b)
+            if t['k'] != 'switch':
+                continue
+            l = op_base_local(t.get('op'))
+            src = LF.reaches(l, obs) if l is not None else None
+            n_obs += 1 if src is not None else 0
+            if src is not None:
+                rep.bad(rule, f.path, 'branch on tokenizer state', 'a branch of the parser is decided by %s: two texts with the same tokens can give different trees' % obs[src], span_loc(t['span']))
+    if not n_obs:
+        rep.good(rule, 'parser', 'tokenizer observations', 'no branch of the parser depends on anything the tokenizer offers besides the tokens of next()', 'src/parser.rs')
+
+
+def check_binding_table(ctx, rep, rule, counts=True):
+    """the binding-power table: levels, their order, calls/indexing above every operator, non-operators lowest"""
+    F = ctx.facts()
+    lt = tables.lexer_table(ctx)['table']
+    tp = tables.token_precedence(ctx)
+    rank = {n: i for i, n in enumerate(tp['order'])}
+    prec_fn = tp['fn']
+    tokens = [n for n, _ in F.enum_variants(tables.TOKEN)]
+    if counts:
+        rep.count('token_variants', len(tokens))
+    tokrank = {}
+    for tkn in tokens:
+        pv = tp['map'].get(tkn)
+        if pv is None or pv not in rank:
+            rep.bad(rule, prec_fn.path, 'Token::%s' % tkn, 'precedence() does not return a constant Precedence for this token', prec_fn.loc())
+            continue
+        tokrank[tkn] = rank[pv]
+    if counts:
+        rep.table('token_rank', {t: tp['map'].get(t) for t in tokens})
+        rep.table('precedence_order', tp['order'])
+
+    # lexeme -> token
+    missing = set()
+    def tok(lx):
+        t = lt.get(lx)
+        if t is None and lx not in missing:
+            missing.add(lx)
+            rep.bad(rule, 'lexer::Tokenizer::next', 'lexeme %s' % lx, 'the tokenizer, simulated on the text `%s`, yields no single token for this operator: an expression written with it cannot denote its tree' % lx, 'src/lexer.rs')
+        return t
+    level_rank = []
+    for lv in LEVELS:
+        rs = {tokrank.get(tok(lx)) for lx in lv}
+        ok = len(rs) == 1 and None not in rs
+        rep.ob(ok, rule, prec_fn.path, 'level {%s}' % ' '.join(lv), 'operators of one level share one binding power: %s' % {lx: tp['map'].get(tok(lx)) for lx in lv}, prec_fn.loc())
+        level_rank.append(min(r for r in rs if r is not None) if rs - {None} else -1)
+        for lx in lv:
+            rep.good(rule, prec_fn.path, 'Token::%s' % tok(lx), '%s -> %s' % (lx, tp['map'].get(tok(lx))), prec_fn.loc()) if ok else None
+    for i in range(1, len(LEVELS)):
+        rep.ob(level_rank[i - 1] < level_rank[i], rule, prec_fn.path, 'order {%s} < {%s}' % (' '.join(LEVELS[i - 1]), ' '.join(LEVELS[i])),
+               'rank %s < rank %s' % (level_rank[i - 1], level_rank[i]), prec_fn.loc())
+    rep.ob(level_rank[0] > 0, rule, prec_fn.path, 'assignment above Lowest', 'rank(=) = %d > 0' % level_rank[0], prec_fn.loc())
+    for lx in ('(', '['):
+        rep.ob(tokrank.get(tok(lx), -1) > level_rank[-1], rule, prec_fn.path, 'Token::%s' % tok(lx),
+               'calls/indexing bind tighter than every operator: rank(%s)=%s > %s' % (lx, tokrank.get(tok(lx)), level_rank[-1]), prec_fn.loc())
+    optoks = {tok(lx) for lv in LEVELS for lx in lv} | {tok('('), tok('[')}
+    unused = {'Dot', 'Caret'}    # tokens with no grammar production: their rank is irrelevant (the loop returns on them)
+    for tkn in tokens:
+        if tkn in optoks or tkn in unused:
+            continue
+        rep.ob(tokrank.get(tkn) == 0, rule, prec_fn.path, 'Token::%s' % tkn,
+               'a token that is not an operator must have the lowest power (it ends every expression): got %s' % tp['map'].get(tkn), prec_fn.loc())
+
+    return tok, tokrank
+
+
 def run(ctx, rep):
     F = ctx.facts()
     lt = tables.lexer_table(ctx)['table']
@@ -54,46 +158,8 @@ def run(ctx, rep):
     from rules import c08
     c08.check_layout(ctx, rep, 'R07.7')
 
+    tok, tokrank = check_binding_table(ctx, rep, 'R07.1')
     tokens = [n for n, _ in F.enum_variants(tables.TOKEN)]
-    rep.count('token_variants', len(tokens))
-    tokrank = {}
-    for tkn in tokens:
-        pv = tp['map'].get(tkn)
-        if pv is None or pv not in rank:
-            rep.bad('R07.1', prec_fn.path, 'Token::%s' % tkn, 'precedence() does not return a constant Precedence for this token', prec_fn.loc())
-            continue
-        tokrank[tkn] = rank[pv]
-    rep.table('token_rank', {t: tp['map'].get(t) for t in tokens})
-    rep.table('precedence_order', tp['order'])
-
-    # lexeme -> token
-    def tok(lx):
-        t = lt.get(lx)
-        if t is None:
-            raise CheckerError('lexer table has no token for %r' % lx)
-        return t
-    level_rank = []
-    for lv in LEVELS:
-        rs = {tokrank.get(tok(lx)) for lx in lv}
-        ok = len(rs) == 1 and None not in rs
-        rep.ob(ok, 'R07.1', prec_fn.path, 'level {%s}' % ' '.join(lv), 'operators of one level share one binding power: %s' % {lx: tp['map'].get(tok(lx)) for lx in lv}, prec_fn.loc())
-        level_rank.append(min(r for r in rs if r is not None) if rs - {None} else -1)
-        for lx in lv:
-            rep.good('R07.1', prec_fn.path, 'Token::%s' % tok(lx), '%s -> %s' % (lx, tp['map'].get(tok(lx))), prec_fn.loc()) if ok else None
-    for i in range(1, len(LEVELS)):
-        rep.ob(level_rank[i - 1] < level_rank[i], 'R07.1', prec_fn.path, 'order {%s} < {%s}' % (' '.join(LEVELS[i - 1]), ' '.join(LEVELS[i])),
-               'rank %s < rank %s' % (level_rank[i - 1], level_rank[i]), prec_fn.loc())
-    rep.ob(level_rank[0] > 0, 'R07.1', prec_fn.path, 'assignment above Lowest', 'rank(=) = %d > 0' % level_rank[0], prec_fn.loc())
-    for lx in ('(', '['):
-        rep.ob(tokrank.get(tok(lx), -1) > level_rank[-1], 'R07.1', prec_fn.path, 'Token::%s' % tok(lx),
-               'calls/indexing bind tighter than every operator: rank(%s)=%s > %s' % (lx, tokrank.get(tok(lx)), level_rank[-1]), prec_fn.loc())
-    optoks = {tok(lx) for lv in LEVELS for lx in lv} | {tok('('), tok('[')}
-    unused = {'Dot', 'Caret'}    # tokens with no grammar production: their rank is irrelevant (the loop returns on them)
-    for tkn in tokens:
-        if tkn in optoks or tkn in unused:
-            continue
-        rep.ob(tokrank.get(tkn) == 0, 'R07.1', prec_fn.path, 'Token::%s' % tkn,
-               'a token that is not an operator must have the lowest power (it ends every expression): got %s' % tp['map'].get(tkn), prec_fn.loc())
 
     # ---- R07.2 ---------------------------------------------------------------------------------
     pe = F.fn(P + 'parse_expr')
@@ -166,7 +232,7 @@ def run(ctx, rep):
     sw = (None, {'span': pe.span})
     rep.table('pratt_dispatch', disp)
     infix_set = {t for t, c in disp.items() if c == 'parse_infix_expr'}
-    want_infix = {tok(lx) for lx in BINARY}
+    want_infix = {tok(lx) for lx in BINARY} - {None}
     for tkn in sorted(want_infix | infix_set):
         rep.ob(tkn in want_infix and tkn in infix_set, 'R07.2', pe.path, 'dispatch Token::%s' % tkn,
                'binary operator tokens, and only they, go to parse_infix_expr (got %s)' % disp.get(tkn, other), span_loc(sw[1]['span']))
@@ -452,50 +518,7 @@ def run(ctx, rep):
 
     # ---- R07.9 the parser sees tokens, not layout --------------------------------------------------
     rep.rule('R07.9', 'the tree depends on the tokens only: whatever else the parser can learn from the tokenizer (a field, a method besides next()) never decides a branch of the parser')
-    from rules.shared import LocalFlow
-    n_obs = 0
-    for f in F.all_fns:
-        if f.crate != 'lib' or not f.path.startswith('parser::') or f.path.startswith('parser::tests'):
-            continue
-        obs = {}      # local -> what was observed
-        for b, si, st in f.stmts():
-            if st['k'] != 'assign':
-                continue
-            def fields_of(x, acc):
-                if isinstance(x, dict):
-                    if 'local' in x and 'proj' in x:
-                        for e in x['proj']:
-                            if isinstance(e, dict) and e.get('of', '').startswith('lexer::Tokenizer'):
-                                acc.append(e['name'])
-                    for v_ in x.values():
-                        fields_of(v_, acc)
-                elif isinstance(x, list):
-                    for v_ in x:
-                        fields_of(v_, acc)
-            acc = []
-            fields_of(st['rv'], acc)
-            if acc:
-                obs[st['place']['local']] = 'field %s of the tokenizer at %s' % (acc[0], span_loc(st['span']))
-        for b, t in f.calls():
-            nme = callee_name(t)
-            if nme.startswith('lexer::Tokenizer') and not nme.endswith('::new'):
-                obs[t['dest']['local']] = '%s() at %s' % (nme.split('::')[-1], span_loc(t['span']))
-            if nme.startswith('<lexer::Tokenizer') and not nme.endswith('Iterator>::next'):
-                obs[t['dest']['local']] = '%s() at %s' % (nme.split('::')[-1], span_loc(t['span']))
-        if not obs:
-            continue
-        LF = LocalFlow(f)
-        for b in range(len(f.blocks)):
-            t = f.term(b)
-            if t['k'] != 'switch':
-                continue
-            l = op_base_local(t.get('op'))
-            src = LF.reaches(l, obs) if l is not None else None
-            n_obs += 1 if src is not None else 0
-            if src is not None:
-                rep.bad('R07.9', f.path, 'branch on tokenizer state', 'a branch of the parser is decided by %s: two texts with the same tokens can give different trees' % obs[src], span_loc(t['span']))
-    if not n_obs:
-        rep.good('R07.9', 'parser', 'tokenizer observations', 'no branch of the parser depends on anything the tokenizer offers besides the tokens of next()', 'src/parser.rs')
+    check_tokens_only(ctx, rep, 'R07.9')
 
     # never stored: the AST types have no Token field
     bad_fields = []
